@@ -121,9 +121,15 @@ type lexCase struct {
 	SdfaOk  bool      `json:"sdfaOk"`
 	SdfaErr string    `json:"sdfaErr"`
 	Sdfa    []lexScan `json:"sdfa"`
+	Crash   string    `json:"crash"`
 }
 
 func lexExec(c *lexCase) {
+	defer func() {
+		if r := recover(); r != nil {
+			c.Crash = fmt.Sprint("panic: ", r)
+		}
+	}()
 	a := alphabetFor(c.Mode)
 	c.Mode = a.Mode
 	c.Width, c.Canon = a.Width, a.Canon
